@@ -165,6 +165,29 @@ impl Lab<'_> {
         let rep = sat::check(&h.layout, &snap);
         if !rep.satisfied() {
             ev.bucket("adversarial.unsatisfied");
+            // near misses (exactly one sub-identity violated on exactly one
+            // row): a few per (component, adversary kind, sub-identity) are
+            // taken through the real prover and verifier, which must refuse
+            // what the gate identities reject - this is where a weakened
+            // widget (a link dropped consistently in quotient, lineariser and
+            // verifier) becomes observable from the component's side
+            if rep.violated.len() == 1 {
+                let kind = name.split(':').next().unwrap();
+                let key = format!("nearmiss.{}|{}|{}", comp, kind, rep.violated[0].1.name());
+                if ev.bucket_get(&key) < self.near_miss_cap() {
+                    ev.bucket(&key);
+                    ev.bucket("near_miss.end_to_end");
+                    ev.set_insert("near_miss_identities", rep.violated[0].1.name());
+                    let verdict = self.end_to_end(c, Some(forge));
+                    if verdict != "prover-refuses" && verdict != "rejects" {
+                        ev.violation(
+                            &format!("{}:{}:assignment-violating-{}-only:{}:real-prover-and-verifier={}", self.id, c.component, rep.violated[0].1.name(), kind, verdict),
+                            json!({"component": c.component, "adversary": name, "note": c.note, "row": rep.violated[0].0, "inputs": crate::util::hxs(&c.inputs.scalars),
+                                "forged": forge.iter().map(|(k, v)| (k.to_string(), hx(v))).collect::<BTreeMap<_, _>>()}),
+                        );
+                    }
+                }
+            }
             return;
         }
         ev.bucket("adversarial.satisfied");
@@ -183,6 +206,13 @@ impl Lab<'_> {
         } else {
             // a different internal assignment with the same observable result
             ev.bucket("adversarial.satisfied-same-output");
+        }
+    }
+
+    fn near_miss_cap(&self) -> u64 {
+        match self.ev.tier {
+            crate::mon::evidence::Tier::Quick => 6,
+            crate::mon::evidence::Tier::Thorough => 40,
         }
     }
 
